@@ -1646,7 +1646,7 @@ func c08Restart(n *c08Node, run *ev.Run) bool {
 
 func runC08(tier string, args []string) {
 	run := ev.New("C08", tier, "exploration")
-	run.Rule("systematic control-service inputs (every built-in command and work sub-command x every field absent / of every JSON type, unknown fields, duplicate keys, deep nesting, plain forms with 0-5 tokens, blanks/CR/tabs/case, raw and invalid-UTF-8 bytes, {-garbage, startpos values, 26 unit-id variants incl. units present only on disk, over-long and unterminated lines, disconnects at every protocol stage) plus seeded random bytes / field combinations / token lists / byte flips. Phase 1: each input alone on one of S daemons (one session per daemon: exact attribution), phase 2: a seeded sample of the same inputs (all scripts and well-formed commands) on W concurrent unix/tcp/mesh sessions of one daemon. After every input: work list, status, self-ping on the same session (if the protocol left it open) and on a fresh one, 3 attempts of 10 s. distinct_nontrivial = distinct (connection kind, command, mutation) of answered inputs whose first token / \"command\" names a registered command")
+	run.Rule("systematic control-service inputs (every built-in command and work sub-command x every field absent / of every JSON type, unknown fields, duplicate keys, deep nesting, plain forms with 0-5 tokens, blanks/CR/tabs/case, raw and invalid-UTF-8 bytes, {-garbage, startpos values, 26 unit-id variants incl. units present only on disk, over-long and unterminated lines, disconnects at every protocol stage) plus seeded random bytes / field combinations / token lists / byte flips. Phase 1: each input alone on one of S daemons (one session per daemon: exact attribution), phase 2: a seeded sample of the same inputs (all scripts and well-formed commands) on W concurrent unix/tcp/mesh sessions of one daemon. After every input: work list, status, self-ping on the same session (if the protocol left it open) and on a fresh one, 3 attempts of 10 s. Flood: a daemon started under `ulimit -n L` (L seeded, 64-200), a client that opens 2L+40 sessions alternately on the Unix socket and the TCP port (the surplus waits ungreeted while accept fails for lack of descriptors), `status` on greeted sessions meanwhile, then all closed; afterwards a fresh session on each of the two listeners must be greeted and answer status + self-ping within 30 s (retried). distinct_nontrivial = distinct (connection kind, command, mutation) of answered inputs whose first token / \"command\" names a registered command")
 	run.Assume("ERROR is demanded only for lines invalid under both a strict and a tolerant reading of the documented command set (null in optional fields, case variants, duplicate keys, nesting deeper than 500, unterminated fragments and blank lines are not judged); unknown = ids the harness never created or has released; an unexpected close of a unix/tcp session counts as 'the same session no longer answers'; `reload` (flag-configured daemon) may answer anything")
 	run.Assume("a wedge class seen 4 times is not exercised further in the same run (counted as skipped); inputs that violated alone are left out of the concurrent phase")
 	base := filepath.Join(workDir(), "c08")
@@ -1749,6 +1749,7 @@ func runC08(tier string, args []string) {
 	}
 
 	run.Extra("phase2_s", time.Since(t1).Seconds())
+	c08Flood(run, base) // c08flood.go: more concurrent sessions than the node has descriptors for
 	if os.Getenv("C08_TIMING") != "" {
 		run.Extra("slow_inputs", rp.slow)
 		run.Extra("class_ms", rp.classMs)
